@@ -31,7 +31,7 @@ class C12(Prop):
     assumptions = ["float rounding outside the model; affine maps and weight factors are dyadic so that they are exact in floats"]
 
     def generate(self, tier, rng):
-        N = 1500 if tier == "quick" else 25000
+        N = 1500 if tier == "quick" else 12000
         for k in range(N):
             f = rng.choice(["mean", "mean", "quantile", "median", "expectile"])
             n = rng.choice([1, 2, 3, 4, 6, 9, 15, 30]) if rng.random() < 0.9 else rng.randint(31, 150)
